@@ -19,8 +19,25 @@ from mc.engine import h64
 THRESHOLDS = [0.0, 0.5, 1.0]
 ALL_T = [0.0, 0.3, 0.5, 0.7, 1.0]
 LEVELS = [1, 2]
-OPS = [('refine', t, L) for t in THRESHOLDS for L in LEVELS] + [('uniform',), ('griddify',)]
-OPS_QUICK = [('refine', 0.0, 1), ('refine', 0.5, 1), ('refine', 0.5, 2), ('refine', 1.0, 1), ('uniform',), ('griddify',)]
+# 'release': the fixed flag of the (lowest, leftmost) fixed cell is cleared IN PLACE on the same Allocation object, as a caller
+# that releases a module does (tests/frame/allocation set the flag the same way): whatever the object derived from its cells
+# before (the state check has just asked must_be_refined for every threshold) must not be stale afterwards
+OPS = [('refine', t, L) for t in THRESHOLDS for L in LEVELS] + [('uniform',), ('griddify',), ('release',)]
+OPS_QUICK = [('refine', 0.0, 1), ('refine', 0.5, 1), ('refine', 0.5, 2), ('refine', 1.0, 1), ('uniform',), ('griddify',), ('release',)]
+
+
+def release_in_place(alloc):
+    # (on a private deep copy of the object, caches and all: refined allocations share the Rectangle objects of the cells
+    #  they did not cut with the allocation they were refined from, and the explorer still holds those)
+    import copy
+    alloc = copy.deepcopy(alloc)
+    for t in ALL_T:
+        alloc.must_be_refined(t)
+    fx = [a for a in alloc.allocations if a.rect.fixed]
+    if fx:
+        a = min(fx, key=lambda q: (round(q.rect.center.y - q.rect.shape.h / 2, 9), round(q.rect.center.x - q.rect.shape.w / 2, 9)))
+        a.rect.fixed = False
+    return alloc
 
 MAPS = [{}, {'A': 0.3}, {'A': 0.7}, {'A': 1.0}, {'A': 0.5, 'B': 0.5}, {'A': 0.3, 'B': 0.7}, {'A': 0.0, 'B': 0.7}]
 DEFAULTS = [{'A': 0.5}, {'A': 0.3, 'B': 0.7}]
@@ -80,6 +97,10 @@ def ref_apply(cells, op):
     if op[0] == 'refine':
         _, t, L = op
         return [split_variants(c, L if refinable_at(c, t) else 0) for c in cells]
+    if op[0] == 'release':
+        fx = [c for c in cells if c.fixed]
+        first = min(fx, key=lambda c: (c.r[1], c.r[0])) if fx else None
+        return [[[Cell(c.r, c.fixed and c is not first, c.depth, dict(c.map))]] for c in cells]
     if op[0] == 'uniform':
         D = max(c.depth for c in cells)
         return [split_variants(c, 0 if c.fixed else D - c.depth) for c in cells]
@@ -332,6 +353,8 @@ def explore(init_cells, depth, on_state, on_transition, res, scale, ops=None, pr
                     signal.alarm(OP_TIMEOUT)          # an operation takes milliseconds: this only fires on a livelock
                     if op[0] == 'refine':
                         out = alloc.refine(op[1], op[2])
+                    elif op[0] == 'release':
+                        out = release_in_place(alloc)
                     elif op[0] == 'uniform':
                         out = alloc.uniform_refinement_depth()
                     else:
@@ -628,7 +651,7 @@ def check_case_common(mode, case, res):
             break
         try:
             signal.alarm(OP_TIMEOUT)
-            out = alloc.refine(op[1], op[2]) if op[0] == 'refine' else \
+            out = alloc.refine(op[1], op[2]) if op[0] == 'refine' else release_in_place(alloc) if op[0] == 'release' else \
                 alloc.uniform_refinement_depth() if op[0] == 'uniform' else alloc.griddify()
             exc = None
         except Exception as e:  # noqa
